@@ -53,6 +53,24 @@
                 found.push(format!("WITNESS flush_writes_every_resident_entry_once_except_in_memory_only :: entry 3 enqueued {:?}", recs));
             }
         }
+        // (3) dropping the last copy without close() runs the same graceful close
+        {
+            let dir = tempfile::tempdir().unwrap();
+            let recorder = Recorder::default();
+            let hybrid = tests::open_with_for_witness(dir.path(), HybridCachePolicy::WriteOnEviction, true, recorder.clone()).await;
+            hybrid.insert(4, vec![4; 7 * KB]);
+            let store = hybrid.storage().clone();
+            drop(hybrid);
+            let mut flushed = false;
+            for _ in 0..100 {
+                if recorder.dump().iter().any(|r| matches!(r, Record::Admit(4))) { flushed = true; break; }
+                tokio::time::sleep(std::time::Duration::from_millis(50)).await;
+            }
+            if !flushed {
+                found.push(format!("WITNESS drop_without_close_flushes_memory_when_flush_on_close :: WriteOnEviction, flush_on_close: insert(4); drop(last copy) without close(); 5 s later the disk tier was offered {:?}", recorder.dump()));
+            }
+            store.wait().await;
+        }
         for f in found.iter().take(3) { println!("{f}"); }
         println!("WITNESS-SEARCH-DONE found={}", found.len());
     }
